@@ -4,6 +4,7 @@
 #include <cmath>
 #include <cstdlib>
 #include <algorithm>
+#include <set>
 
 namespace tbfsim {
 
@@ -368,6 +369,47 @@ Scenario generate(const std::string& prop, uint64_t seed, const std::string& tie
         }
     } else {
         sc.history.push_back(full);
+    }
+    // ---- scale scenarios (seed residues 1 and 2 modulo 4096; the batch driver forces one of each per batch) ----
+    const int scale = (prop == "C02" || prop == "C03" || prop == "C15" || prop == "C18") ? int(seed & 4095) : 0;
+    if (scale == 1 || scale == 2) {
+        sc.ordering = "morton";
+        sc.kernel = (prop == "C18") ? "counter_weight" : "weight";
+        sc.executor = r.chance(0.7) ? "omp" : "seq";
+        sc.upper = 2; sc.upperDefault = false; sc.topLevels = -2;
+        sc.tgt.clear(); sc.src.clear();
+        sc.oneGroupPerParent = false;
+        for (int d = 0; d < 3; ++d) { sc.width[size_t(d)] = 1.0; sc.centre[size_t(d)] = 0.5; }
+        sc.threadsCtor = sc.threadsExec = 1 + int(r.below(8));
+        HistOp p2p = full; p2p.flags = F_P2P;
+        if (scale == 1) {
+            // many leaves in one group: more than 2^15 elements per group (narrow index types in the interaction records)
+            sc.height = 7;
+            const long cells = 64, want = 34000 + long(r.below(8000));
+            std::set<long> used;
+            while (long(used.size()) < want) used.insert(long(r.below(uint64_t(cells * cells * cells))));
+            for (long c : used) {
+                const long x = c / (cells * cells), y = (c / cells) % cells, z = c % cells;
+                sc.src.push_back({{(double(x) + 0.5) / double(cells), (double(y) + 0.5) / double(cells), (double(z) + 0.5) / double(cells)}});
+            }
+            sc.blockSize = r.chance(0.7) ? 10000000 : 40000;
+            sc.history.clear();
+            sc.history.push_back((!plainFlavour || r.chance(0.5)) ? p2p : full);
+        } else {
+            // crowded leaves: particle-pair counts beyond 2^31 in a single near-field call
+            sc.height = 2 + int(r.below(2));
+            const long cells = 1L << (sc.height - 1);
+            const long nA = 46500 + long(r.below(6000)), nB = 46500 + long(r.below(6000));
+            const long ax = long(r.below(uint64_t(cells - 1)));
+            for (long i = 0; i < nA + nB; ++i) {
+                const long cx = (i < nA) ? ax : ax + 1;
+                sc.src.push_back({{(double(cx) + r.unit()) / double(cells), r.unit() / double(cells), r.unit() / double(cells)}});
+            }
+            sc.blockSize = r.chance(0.5) ? 1 : 1000000;
+            sc.history.clear();
+            sc.history.push_back(r.chance(0.5) ? p2p : full);
+        }
+        toBox(sc, sc.src);
     }
     applySchedule(sc, 0, plainFlavour);
     return sc;
